@@ -58,7 +58,7 @@ func TestVerifC02(t *testing.T) {
 	rng := verifRand("c02")
 	nUsers := 14
 	if verifThorough() {
-		nUsers = 60
+		nUsers = 200
 	}
 	names := c02UserNames(rng, nUsers)
 	users := map[string]string{}
